@@ -73,6 +73,94 @@ def w_gen_cpp(case):
     return {"files": gen_files, "reflection": refl, "schema": sd, "regen_same": regen_same, "schema_untouched": untouched}
 
 
+def w_cpp_accept(case):
+    """is the schema accepted (parser, general checks, the C++ plug-in's own checks) - and if so, does generation return?"""
+    from fcp.parser import get_fcp_from_string
+    from fcp.error import Logger
+    from fcp.verifier import make_general_verifier
+    import tempfile as _t
+    import fcp_cpp
+
+    r = get_fcp_from_string(case["text"], Logger({}))
+    if r.is_err():
+        return {"accepted": False, "stage": "parser"}
+    fcp = r.unwrap()
+    v = make_general_verifier()
+    fcp_cpp.Generator().register_checks(v)
+    vr = v.verify(fcp)
+    if vr.is_err():
+        return {"accepted": False, "stage": "verifier"}
+    out = _t.mkdtemp(prefix="fcpcpp_")
+    try:
+        files = fcp_cpp.Generator().generate(fcp, {"output": out})
+        return {"accepted": True, "files": {os.path.basename(str(f["path"])): str(f["contents"]) for f in files}}
+    except Exception as e:
+        return {"accepted": True, "raised": type(e).__name__ + ": " + str(e)[:120]}
+    finally:
+        shutil.rmtree(out, ignore_errors=True)
+
+
+SERVICE_EDGES = [
+    ("service id 255, method id 255", "service S @ 255 {\n    method m(A) @ 255 returns B,\n}"),
+    ("service id 256", "service S @ 256 {\n    method m(A) @ 0 returns B,\n}"),
+    ("service id 70000", "service S @ 70000 {\n    method m(A) @ 0 returns B,\n}"),
+    ("method id 256", "service S @ 1 {\n    method m(A) @ 256 returns B,\n}"),
+    ("payload is not declared", "service S @ 1 {\n    method m(Nowhere) @ 0 returns B,\n}"),
+    ("result is not declared", "service S @ 1 {\n    method m(A) @ 0 returns Nowhere,\n}"),
+    ("payload is an enum", "service S @ 1 {\n    method m(E) @ 0 returns B,\n}"),
+    ("one struct as input and output", "service S @ 1 {\n    method m(A) @ 0 returns A,\n    method n(B) @ 1 returns A,\n}"),
+    ("two services share payloads", "service S @ 1 {\n    method m(A) @ 0 returns B,\n}\nservice T @ 2 {\n    method m(A) @ 0 returns B,\n}"),
+    ("two methods with one id", "service S @ 1 {\n    method m(A) @ 4 returns B,\n    method n(B) @ 4 returns A,\n}"),
+    ("two methods with one name", "service S @ 1 {\n    method m(A) @ 0 returns B,\n    method m(B) @ 1 returns A,\n}"),
+    ("two services with one name", "service S @ 1 {\n    method m(A) @ 0 returns B,\n}\nservice S @ 2 {\n    method k(B) @ 3 returns A,\n}"),
+    ("negative ids", "service S @ -1 {\n    method m(A) @ -2 returns B,\n}"),
+    ("a service without methods is a syntax error or fine", "service S @ 1 {\n}"),
+    ("two services with one id", "service S @ 1 {\n    method m(A) @ 0 returns B,\n}\nservice T @ 1 {\n    method k(B) @ 3 returns A,\n}"),
+]
+
+
+def service_edge_probe(rep):
+    """C03 speaks of every accepted schema: service declarations at the edges of what the rpc layer of the C++ generator takes
+    (ids beyond 8 bits, payloads that are no declared structs, shared payloads).  Each schema is either rejected - by the parser,
+    the general checks or the C++ plug-in's own checks - or generation returns and the header compiles."""
+    base = 'version: "3"\n\nenum E {\n    P = 0,\n    Q = 3,\n}\nstruct A {\n    x @ 0: u8,\n}\nstruct B {\n    y @ 0: i16,\n    e @ 1: E,\n}\n'
+    cases = [{"text": base + body + "\n"} for _, body in SERVICE_EDGES]
+    res = run_cases("harness.cpp", "w_cpp_accept", cases, timeout_s=120)
+    for (label, _), c, r in zip(SERVICE_EDGES, cases, res):
+        rep.cov["evaluations"] += 1
+        if "ok" not in r:
+            rep.violation({"kind": "harness", "schema": c["text"], "observed": r}, no_input=True)
+            continue
+        o = r["ok"]
+        if not o["accepted"]:
+            rep.hist("service_edges", label + ": rejected by the " + o["stage"])
+            continue
+        if "raised" in o:
+            rep.hist("service_edges", label + ": accepted, generation raised")
+            rep.cov["disagreements_checked"] += 1
+            rep.violation({"kind": "generation-raised", "schema": c["text"], "observed": o["raised"], "edge": label,
+                           "what": "the schema is accepted by parser, general checks and the C++ plug-in's checks, but the C++ generator "
+                                   "raises instead of producing headers"})
+            continue
+        d_ = tempfile.mkdtemp(prefix="fcpcxx_")
+        try:
+            for name, contents in o["files"].items():
+                with open(os.path.join(d_, name), "w") as f:
+                    f.write(contents)
+            src = os.path.join(d_, "t.cpp")
+            with open(src, "w") as f:
+                f.write('#include "fcp.h"\nint main() { return 0; }\n')
+            p = subprocess.run(["g++", "-std=c++17", "-O0", "-w", "-fsyntax-only", "-I", str(VENDOR), "-I", d_, src],
+                               stdout=subprocess.PIPE, stderr=subprocess.STDOUT, text=True, timeout=600)
+        finally:
+            shutil.rmtree(d_, ignore_errors=True)
+        rep.hist("service_edges", label + (": compiles" if p.returncode == 0 else ": does not compile"))
+        if p.returncode != 0:
+            rep.cov["disagreements_checked"] += 1
+            rep.violation({"kind": "compile", "schema": c["text"], "compiler": p.stdout[-1200:], "edge": label,
+                           "what": "the generated C++ header of an accepted schema does not compile"})
+
+
 def w_type_names(case):
     """`to_wrapper_cpp_type`, `_to_highest_power_of_two`, `Enum.get_packed_size` (exhaustive sub-scopes)"""
     from fcp_cpp.generator import _to_highest_power_of_two
@@ -384,6 +472,7 @@ def run_core(rep, prop, tier, rng):
         beyond_i32_witness(rep, prop)
     if prop == "C03":
         exhaustive_types(rep)
+        service_edge_probe(rep)
         if known("C03", "reserved-word-identifiers"):
             reserved_word_witness(rep)
     fixed_jobs = {}
